@@ -22,8 +22,8 @@ let rec int_of_nat = function O -> 0 | S n -> 1 + int_of_nat n
 let () =
   if Array.length Sys.argv > 1 && Sys.argv.(1) = "static" then begin
     (* static facts about the translated entry points {macro, direct process(), fatal macro} *)
-    Printf.printf "family_bracketed=%b full_family_guarded=%b direct_and_fatal_guarded=%b reset_ok=%b signal_anchors=%b\n"
-      src_family_bracketed src_full_family_guarded src_direct_and_fatal_guarded src_reset_is_ok src_signal_anchors;
+    Printf.printf "family_bracketed=%b full_family_guarded=%b direct_and_fatal_guarded=%b reset_ok=%b signal_anchors=%b handlers_no_shared_mutable_state=%b\n"
+      src_family_bracketed src_full_family_guarded src_direct_and_fatal_guarded src_reset_is_ok src_signal_anchors src_no_shared_state;
     exit 0
   end;
   try while true do
